@@ -6,7 +6,7 @@
     [repaired] / [repaired_except_pinned] / the pinned defect: see Properties_C05.v.  [mtag_ok], [mtag_index_ok]
     are the domain of the statement (decidable, checked by the extracted oracle). *)
 From Coq Require Import ZArith Bool String List.
-Require NixV.Gen.GenAccess NixV.Access.AccessBridgeModels NixV.Gen.GenPairs NixV.Axis.PairBridge NixV.Axis.RangeModel.
+Require NixV.Gen.GenAccess NixV.Access.AccessBridgeModels NixV.Gen.GenPairs NixV.Axis.PairBridge NixV.Axis.RangeModel NixV.Gen.GenScale NixV.Access.ScaleBridge.
 Require Import NixV.Base.Prelude NixV.Base.F64 NixV.Gen.GenDimensions.
 Require Import NixV.Access.Retrieval NixV.Access.RetrievalSpec NixV.Access.RetrievalAxis NixV.Access.RetrievalDomain
                NixV.Access.RetrievalAssemble NixV.Access.RetrievalTag NixV.Access.RetrievalMTag
@@ -164,6 +164,14 @@ Theorem C06_pair_conversion_is_generated : forall d m s e,
   end.
 Proof. exact NixV.Axis.PairBridge.retrieval_pair_is_generated. Qed.
 Print Assumptions C06_pair_conversion_is_generated.
+
+(** scalePositions of the model is the code regenerated from src/util/dataAccess.cpp on this run *)
+Theorem C06_scalePositions_is_generated : forall starts ends units dun out_s out_e,
+  (Nat.min (List.length starts) (List.length ends) < 200)%nat ->
+  NixV.Gen.GenScale.scalePositions_gen starts ends units dun out_s out_e Retrieval.getSIScaling
+  = Retrieval.scalePositions starts ends units dun.
+Proof. exact NixV.Access.ScaleBridge.scalePositions_generated. Qed.
+Print Assumptions C06_scalePositions_is_generated.
 
 (** OPEN OBLIGATION while the defects of DESIGN section 9 items 4, 19, 28, 31 are in the tree (see Properties_C05.v) *)
 Theorem current_is_repaired : current_behaviour = repaired_except_pinned.
